@@ -229,16 +229,6 @@ class Check(PropertyCheck):
                    for f in res['failures'][:3]]
         return out
 
-    def classify_known(self, v: Violation, known: List[dict]) -> Optional[dict]:
-        case = v.case if isinstance(v.case, dict) else {}
-        cli = case.get('cli') or {}
-        for k in known:
-            m = k.get('match', {})
-            if m.get('kind') == 'cli_all_objects_hidden' and cli.get('tag') == 'all_hidden' \
-                    and 'ZeroDivisionError' in str(v.observed):
-                return k
-        return None
-
     def replay(self, data: Any) -> int:
         case = data['input']
         if 'proc' in case:
